@@ -150,6 +150,35 @@ static void run_case(CaseCtx& c)
             c.obs.check("give_vs_take", d / s, cls);
         c.obs.info.num("give_vs_take_rel", d / s);
     }
+    // a second problem on the same smoother objects: new data written into the SAME right-hand-side buffer (the objects have
+    // swept with the old contents before); the result must equal that of freshly built objects, bit for bit at one thread
+    // and to rounding otherwise -- a sweep is a function of (x, rhs contents), not of the object's past
+    {
+        Vector<double> f2 = random_vector(rng, n, 0);
+        for (int k = 0; k < n; k++)
+            f[k] = f2[k];
+        Vector<double> xin = random_vector(rng, n, 0);
+        ExtrapolatedSmootherGive fg(grid, lcg, *po.geo, *po.prof, dirbc, threads);
+        ExtrapolatedSmootherTake ft(grid, lc, *po.geo, *po.prof, dirbc, threads);
+        for (int w = 0; w < 2; w++) {
+            Vector<double> xr = xin, xf = xin, t1 = random_vector(rng, n, 3), t2 = t1;
+            if (w == 0) {
+                sg.extrapolatedSmoothing(xr, f, t1);
+                fg.extrapolatedSmoothing(xf, f, t2);
+            }
+            else {
+                st.extrapolatedSmoothing(xr, f, t1);
+                ft.extrapolatedSmoothing(xf, f, t2);
+            }
+            double d = 0, sc = 0;
+            for (int k = 0; k < n; k++) {
+                d  = std::max(d, std::fabs(xr[k] - xf[k]));
+                sc = std::max(sc, std::fabs(xf[k]));
+            }
+            if (ms.mild || threads == 1)
+                c.obs.check("reused_object_equals_fresh_object", sc > 0 ? d / sc : (d > 0 ? 1.0 : 0.0), std::string(w == 0 ? "give" : "take") + (threads == 1 ? "/one-thread" : "/threads"));
+        }
+    }
     JObj sig;
     sig.i("circ_parity", ncirc % 2).i("nt_mod8", nt % 8).b("dirbc", dirbc).i("cache", cache_combo).str("geom", geom_name(ps.geom)).i("threads", threads).str("start", sk[start_kind]);
     c.obs.top.obj("sig", sig);
